@@ -150,15 +150,18 @@ def XNum.eq : XNum → XNum → Bool
   | .inf a, .inf b => a == b
   | _, _ => false
 
-/-- `a < b` on extended numbers (nan-free) -/
+/-- `a < b` on extended numbers (any comparison with NaN is false) -/
 def XNum.lt : XNum → XNum → Bool
+  | .nan, _ => false
+  | _, .nan => false
+  | .snan, _ => false
+  | _, .snan => false
   | .fin a, .fin b => a.lt b
   | .inf true, .inf true => false
   | .inf true, _ => true
   | _, .inf true => false
   | .inf false, _ => false
   | _, .inf false => true
-  | _, _ => false
 
 /-- UTC instant of an aware datetime -/
 def dtInstant (us : Int) (off : Int) : Int := us - off * 1000000
